@@ -143,6 +143,13 @@ theorem aromatic_form_has_its_source_as_kekule_form (k t : Mol) (h : IsAromFormO
     (hloc : ∀ n m b, k.bond? n m = some b → Localised b.order) (hc : HConsistent k) : IsKekuleOf t k :=
   kekule_of_aromatic_form k t h hno hloc hc
 
+/-- the hypotheses are satisfiable: pyrrole `N1C=CC=C1` is valence-consistent, and its aromatic form is accepted -/
+example : HConsistent pyrroleKek := by
+  intro n y h
+  unfold Mol.atom? at h
+  rcases lookup_five _ _ _ _ _ n y h with ⟨rfl, rfl⟩ | ⟨rfl, rfl⟩ | ⟨rfl, rfl⟩ | ⟨rfl, rfl⟩ | ⟨rfl, rfl⟩
+  all_goals exact ⟨1, rfl, by decide +kernel⟩
+
 example : checkThiele pyrroleKek { pyrroleArom with atoms := pyrroleKek.atoms } = true := by decide +kernel
 example : checkThiele pyrroleKek pyrroleArom = false := by decide +kernel
 
